@@ -8,7 +8,8 @@ RULE = ('count sweep: structured datagrams of every protocol (sFlow with all sam
         'v9, IPFIX with templates of 1..40 fields incl. variable-length) in which EVERY aligned 16-bit and 32-bit word '
         '(record count, sample count, field count, AS-path length, communities length, string length, set length, '
         'scope/option length) is replaced in turn by each of {0,1,1000,1001,65535,2^31-1,2^32-1}, processed by the real pipe '
-        'in a child process with a 12 GiB address-space limit; property (implementation alone): the process survives and '
+        'in a child process with a 12 GiB address-space limit; sFlow word sweep: in sFlow datagrams carrying extended gateway records (then others) EVERY aligned 32-bit word takes EVERY one of the seven values, nothing sampled; '
+        ' property (implementation alone): the process survives and '
         'runtime.MemStats.TotalAlloc grows by at most 16 MiB + 256 x length x (1 + W) per datagram, W = widest template seen; '
         'amplification: one small hostile unit (template record claiming 65535 fields, maximal options lengths, empty / unknown data set, sFlow sample with 2^32-1 records) repeated up to 1100 times in one datagram, same budget; '
         'ghost tie: measured TotalAlloc <= gh_pipe estimate of the model + 1 MiB for the 300 largest allocations, a random sample of the sweep and every amplification datagram (c02_budget bounds the estimate by the budget for every state and byte string); '
@@ -77,7 +78,26 @@ def run(chk):
     for key, cs in byproto.items():
         head += cs if len(cs) <= pcap else rng.sample(cs, pcap)
     chk.count('header sweep', len(head))
-    cands = head + body
+    # sFlow word sweep (sixth round, seed C02-6): sFlow is all 32-bit words, and every list length in it (records,
+    # samples, AS-path segments, AS numbers, communities, strings, header bytes) stands behind guards that the sampled
+    # sweep above reaches only by luck. The sFlow datagrams that carry extended gateway records (format 1003) come
+    # first, then the others: EVERY aligned 32-bit word of each chosen datagram takes EVERY hostile value -- nothing
+    # sampled (a guard that fails for exactly one of the seven values, e.g. by unsigned wrap-around of length + 1,
+    # is met with certainty).
+    sfl = {}
+    for hi, quads in enumerate(hq):
+        for k in range(len(quads)):
+            hx = quads[k][3][1:]
+            if hx.startswith('00000005') and 64 <= len(hx) // 2 <= 1500:
+                d = bytes.fromhex(hx)
+                gw = sum(1 for p in range(28, len(d) - 3, 4) if d[p:p + 4] == b'\x00\x00\x03\xeb')
+                sfl.setdefault(hx, (gw, hi, k))
+    ranked = sorted(sfl.values(), key=lambda t: (-min(t[0], 1), t[1], t[2]))
+    sfw = []
+    for gw, hi, k in ranked[:dict(quick=4, thorough=40)[chk.tier]]:
+        sfw += [c for c in candidates(hi, k, 0, 1500) if c[4] == 4]
+    chk.count('sFlow word sweep (every aligned word x every hostile value)', len(sfw))
+    cands = head + sfw + body
     worst = (0, '')
     measured = []            # (allocated, index into cands) of every swept datagram that was measured
     SLACK = 2 ** 20          # Spec/Ghost.v:SLACK
